@@ -101,12 +101,10 @@ def base_grid(tier, monitors, gregory_only=False, meek_only=False, symtie=False,
         if not quick:
             # thorough: the same full-ranking universe for every Gregory-family rule and QPQ, two and three seats
             for rule, opts, N4 in [('wigm', FX2, 5), ('wigm-prf', {}, 5), ('wigm-prf-batch', {}, 5), ('cfer', {}, 5), ('cfer-batch', {}, 5), ('mpls', {}, 5),
-                                   ('scotland', {}, 5), ('qpq', {}, 4), ('wigm', G44, 4)]:
+                                   ('scotland', {}, 5), ('qpq', {}, 4)]:
                 if not want(rule) or (gregory_only and rule == 'qpq'):
                     continue
-                for seats in (2, 3):
-                    if rule == 'scotland' and seats == 2:
-                        continue
+                for seats in (3,):      # (two seats: scotland above; guarded arithmetic does not finish this universe in budget)
                     jobs.append(job(rule, opts, 4, seats, 3, N4, monitors, B, symtie=symtie, lines=l3s, weight=25))
     if not gregory_only:
         if want('meek-prf'):
@@ -168,7 +166,7 @@ def base_grid(tier, monitors, gregory_only=False, meek_only=False, symtie=False,
     from harness.universe import all_rankings
     sup_rules = [('wigm', dict(FX2, display=0)), ('scotland', {}), ('wigm-prf-batch', {}), ('meek', {'arithmetic': 'fixed', 'precision': 3, 'omega': 2})]
     if not quick:
-        sup_rules += [('wigm', dict(G44)), ('wigm-prf', {}), ('cfer', {}), ('cfer-batch', {}), ('mpls', {}),
+        sup_rules += [('wigm-prf', {}), ('cfer', {}), ('cfer-batch', {}), ('mpls', {}),
                       ('warren', {'arithmetic': 'fixed', 'precision': 3, 'omega': 2}), ('qpq', {})]
     lines3 = all_rankings(3, 3)
     # supports are ORDERED (the order of the lines in the file): one and two lines in every order, three lines in
@@ -183,9 +181,9 @@ def base_grid(tier, monitors, gregory_only=False, meek_only=False, symtie=False,
             continue
         if meek_only and rule not in ('meek', 'warren', 'meek-prf'):
             continue
-        three = (not quick) or rule == 'scotland'
+        three = rule == 'scotland' or (not quick and (rule == 'meek' or opts.get('display') == 0))
         sups = sup2 + (sup3 if three else [])
-        nchunk = (3 if quick else 6) * (2 if three and quick else 1)
+        nchunk = 6 if three else 3
         Ns = 6 if quick else 7
         for k in range(nchunk):
             jobs.append(job(rule, opts, 3, 2, 3, Ns, monitors, B, symtie=symtie, supports=sups[k::nchunk], weight=6,
